@@ -733,6 +733,28 @@ func (b *bb) scenarioFaulty() {
 				corrupt(prios, dist)
 			}
 		}
+		if b.cycle("faulty-simple", 2) == 0 {
+			// the simplified discipline: its handler goroutines must end too when the divider fails
+			sd, err := simple.New(simple.Opts[int]{Divider: dv, Handle: func(int) {}, HandlersQuantity: c.H, Inputs: inputs})
+			if err != nil {
+				b.note("faulty", "simple "+desc, before)
+				return
+			}
+			startProducers()
+			select {
+			case e, ok := <-sd.Err():
+				if !ok || e == nil {
+					b.fail("C15 faulty v2 simple: the divider broke its contract (%s) but Err() yielded %v (open=%v) (%s)", kind, e, ok, desc)
+				}
+			case <-time.After(10 * time.Second):
+				b.fail("C15 faulty v2 simple: the divider broke its contract (%s) but no error was reported within 10s (%s)", kind, desc)
+			}
+			close(stop)
+			produced.Wait()
+			b.leakProbe("divider error of v2 simple")
+			b.note("faulty", "simple "+desc, before)
+			return
+		}
 		dsc, err := p2.New(p2.Opts[int]{Divider: dv, HandlersQuantity: c.H, Inputs: inputs})
 		if err != nil {
 			// the constructor's own probing calls hit the fault: also a correct outcome
